@@ -406,6 +406,27 @@ def run(ctx) -> None:
     r3.check(okwcc and okrv, "the plain system gets the merged R-vectors and the interlaced centres", f, f.node,
              "get_system_R no longer transfers centres / merged R-vectors", stmt="centres+rvec")
 
+    # ---------------------------------------------------------------- R25.5
+    # the quantisation axis (theta, phi): an angle may be reduced modulo a full turn only — folding phi modulo π maps the axis onto its mirror image
+    r5 = ctx.rule("R25.5", "spin-axis angles are never reduced by anything but a full turn")
+    n_ang = 0
+    for f_ in idx.all_functions():
+        if f_.module.relpath not in ("wannierberri/w90files/soc.py", SOCS):
+            continue
+        angs = [p_ for p_ in f_.params if p_ in ("theta", "phi")]
+        if not angs:
+            continue
+        n_ang += 1
+        r5.instance(f"{f_.short}({', '.join(angs)})")
+        for b_ in ast.walk(f_.node):
+            if isinstance(b_, ast.BinOp) and isinstance(b_.op, ast.Mod) and isinstance(b_.left, ast.Name) and b_.left.id in angs:
+                t_ = norm(b_.right).replace(" ", "").replace("numpy", "np").replace("math.pi", "np.pi")
+                full = t_ in ("2*np.pi", "(2*np.pi)", "np.pi*2", "2.0*np.pi", "(2.0*np.pi)", "360", "360.0", "2*pi", "(2*pi)")
+                r5.check(full, f"`{norm1(b_)}` reduces by a full turn", f_, b_,
+                         f"`{norm1(b_)}` folds the angle `{b_.left.id}` modulo `{norm1(b_.right)}`, which is not a full turn: axes that differ by that angle are "
+                         f"different quantisation axes, so Pauli matrices / SOC terms are built for another axis than the one requested")
+    r5.expect(n_ang >= 1, "functions taking the spin-axis angles located", SOCS, None, "no function with parameters theta / phi found in soc.py / system_soc.py")
+
     # ---------------------------------------------------------------- R25.4
     r4 = ctx.rule("R25.4", "alpha_soc reaches Ham_SOC as given (explicit 0 switches SOC off)", min_instances=3)
     f = idx.function(SOCS, "SystemSOC.set_soc_axis")
@@ -457,6 +478,8 @@ def run(ctx) -> None:
 from ..selftest import V  # noqa: E402
 
 SELFTEST = [
+    V("azimuth of the spin axis folded modulo pi (seeded C25-m4)", "wannierberri/w90files/soc.py", "    def get_C_ss(cls, theta=0, phi=0):\n", "    def get_C_ss(cls, theta=0, phi=0):\n        phi = phi % np.pi\n", "fire", "R25.5"),
+    V("neutral: azimuth reduced by a full turn", "wannierberri/w90files/soc.py", "    def get_C_ss(cls, theta=0, phi=0):\n", "    def get_C_ss(cls, theta=0, phi=0):\n        phi = phi % (2 * np.pi)\n", "silent"),
     V("down block of HH_K taken from the up channel", DKS, "H[:, 1::2, 1::2] = self.data_K_down.HH_K", "H[:, 1::2, 1::2] = self.data_K_up.HH_K",
       "fire", "R25.1"),
     V("down centres copied from the up system in SystemSOC.__init__", SOCS,
